@@ -41,15 +41,25 @@ Definition ptab_eqb (a b : ptab) : bool :=
   String.eqb (pt_name a) (pt_name b) && ostr_eqb (pt_schema a) (pt_schema b) && ostr_eqb (pt_alias a) (pt_alias b).
 
 (* anything that can stand in FROM / JOIN / a field's table: Table, AliasedQuery (eq by name),
-   sub-query (QueryBuilder.__eq__: by alias; the harness gives distinct sub-queries distinct aliases).
+   sub-query.  A sub-query is described by its alias (None: not named yet), the table it selects from and a number
+   that tells apart different sub-queries over the same table.  QueryBuilder.__eq__ compares the alias only,
+   QueryBuilder.__hash__ = hash(alias) + sum of the hashes of its FROM tables: in a *set* two sub-queries count as the
+   same element when alias and FROM table agree (whatever else differs).
    Objects of different kinds are never equal (each __eq__ starts with isinstance). *)
-Inductive tbl := TTab (p : ptab) | TAlq (name : string) | TSub (alias : string).
+Inductive tbl := TTab (p : ptab) | TAlq (name : string) | TSub (alias : option string) (src : string) (uid : nat).
+(* membership in a Python set (hash, then ==) *)
 Definition tbl_eqb (a b : tbl) : bool :=
   match a, b with
   | TTab p, TTab q => ptab_eqb p q
   | TAlq n, TAlq m => String.eqb n m
-  | TSub n, TSub m => String.eqb n m
+  | TSub n s _, TSub m t _ => ostr_eqb n m && String.eqb s t
   | _, _ => false
+  end.
+(* the same source (what the documentation means by "the joined item / a table of the statement") *)
+Definition tbl_ident (a b : tbl) : bool :=
+  match a, b with
+  | TSub n s u, TSub m t v => ostr_eqb n m && String.eqb s t && Nat.eqb u v
+  | _, _ => tbl_eqb a b
   end.
 Definition is_ttab (t : tbl) : bool := match t with TTab _ => true | _ => false end.
 
@@ -94,6 +104,7 @@ Record qst := mkQ {
   q_joins : list jrec;             (* _joins *)
   q_values : bool;                 (* bool(_values) *)
   q_updates : bool;                (* bool(_updates) *)
+  q_subcount : nat;                (* _subquery_count *)
   my_dups : nat;                   (* MySQL len(_duplicate_updates) *)
   my_ignore : bool;                (* MySQL _ignore_duplicates *)
   pg_conflict : bool;              (* PostgreSQL _on_conflict *)
@@ -104,20 +115,21 @@ Record qst := mkQ {
 }.
 
 Definition q_init (c : qcls) : qst :=
-  mkQ c [] None None false [] 0 false false false [] false false 0 false false 0 false 0 false.
+  mkQ c [] None None false [] 0 false false false [] false false 0 0 false false 0 false 0 false.
 
-Definition set_from s v := mkQ (q_cls s) v (q_insert s) (q_update s) (q_delete s) (q_with s) (q_selects s) (q_star s) (q_groupbys s) (q_mysql_rollup s) (q_joins s) (q_values s) (q_updates s) (my_dups s) (my_ignore s) (pg_conflict s) (pg_fields s) (pg_nothing s) (pg_updates s) (pg_rstar s).
-Definition set_insert s v := mkQ (q_cls s) (q_from s) v (q_update s) (q_delete s) (q_with s) (q_selects s) (q_star s) (q_groupbys s) (q_mysql_rollup s) (q_joins s) (q_values s) (q_updates s) (my_dups s) (my_ignore s) (pg_conflict s) (pg_fields s) (pg_nothing s) (pg_updates s) (pg_rstar s).
-Definition set_update s v := mkQ (q_cls s) (q_from s) (q_insert s) v (q_delete s) (q_with s) (q_selects s) (q_star s) (q_groupbys s) (q_mysql_rollup s) (q_joins s) (q_values s) (q_updates s) (my_dups s) (my_ignore s) (pg_conflict s) (pg_fields s) (pg_nothing s) (pg_updates s) (pg_rstar s).
-Definition set_delete s v := mkQ (q_cls s) (q_from s) (q_insert s) (q_update s) v (q_with s) (q_selects s) (q_star s) (q_groupbys s) (q_mysql_rollup s) (q_joins s) (q_values s) (q_updates s) (my_dups s) (my_ignore s) (pg_conflict s) (pg_fields s) (pg_nothing s) (pg_updates s) (pg_rstar s).
-Definition set_with s v := mkQ (q_cls s) (q_from s) (q_insert s) (q_update s) (q_delete s) v (q_selects s) (q_star s) (q_groupbys s) (q_mysql_rollup s) (q_joins s) (q_values s) (q_updates s) (my_dups s) (my_ignore s) (pg_conflict s) (pg_fields s) (pg_nothing s) (pg_updates s) (pg_rstar s).
-Definition set_selects s v st := mkQ (q_cls s) (q_from s) (q_insert s) (q_update s) (q_delete s) (q_with s) v st (q_groupbys s) (q_mysql_rollup s) (q_joins s) (q_values s) (q_updates s) (my_dups s) (my_ignore s) (pg_conflict s) (pg_fields s) (pg_nothing s) (pg_updates s) (pg_rstar s).
-Definition set_groupbys s v r := mkQ (q_cls s) (q_from s) (q_insert s) (q_update s) (q_delete s) (q_with s) (q_selects s) (q_star s) v r (q_joins s) (q_values s) (q_updates s) (my_dups s) (my_ignore s) (pg_conflict s) (pg_fields s) (pg_nothing s) (pg_updates s) (pg_rstar s).
-Definition set_joins s v := mkQ (q_cls s) (q_from s) (q_insert s) (q_update s) (q_delete s) (q_with s) (q_selects s) (q_star s) (q_groupbys s) (q_mysql_rollup s) v (q_values s) (q_updates s) (my_dups s) (my_ignore s) (pg_conflict s) (pg_fields s) (pg_nothing s) (pg_updates s) (pg_rstar s).
-Definition set_values s v := mkQ (q_cls s) (q_from s) (q_insert s) (q_update s) (q_delete s) (q_with s) (q_selects s) (q_star s) (q_groupbys s) (q_mysql_rollup s) (q_joins s) v (q_updates s) (my_dups s) (my_ignore s) (pg_conflict s) (pg_fields s) (pg_nothing s) (pg_updates s) (pg_rstar s).
-Definition set_updates s v := mkQ (q_cls s) (q_from s) (q_insert s) (q_update s) (q_delete s) (q_with s) (q_selects s) (q_star s) (q_groupbys s) (q_mysql_rollup s) (q_joins s) (q_values s) v (my_dups s) (my_ignore s) (pg_conflict s) (pg_fields s) (pg_nothing s) (pg_updates s) (pg_rstar s).
-Definition set_my s d i := mkQ (q_cls s) (q_from s) (q_insert s) (q_update s) (q_delete s) (q_with s) (q_selects s) (q_star s) (q_groupbys s) (q_mysql_rollup s) (q_joins s) (q_values s) (q_updates s) d i (pg_conflict s) (pg_fields s) (pg_nothing s) (pg_updates s) (pg_rstar s).
-Definition set_pg s c f n u r := mkQ (q_cls s) (q_from s) (q_insert s) (q_update s) (q_delete s) (q_with s) (q_selects s) (q_star s) (q_groupbys s) (q_mysql_rollup s) (q_joins s) (q_values s) (q_updates s) (my_dups s) (my_ignore s) c f n u r.
+Definition set_from s v := mkQ (q_cls s) v (q_insert s) (q_update s) (q_delete s) (q_with s) (q_selects s) (q_star s) (q_groupbys s) (q_mysql_rollup s) (q_joins s) (q_values s) (q_updates s) (q_subcount s) (my_dups s) (my_ignore s) (pg_conflict s) (pg_fields s) (pg_nothing s) (pg_updates s) (pg_rstar s).
+Definition set_insert s v := mkQ (q_cls s) (q_from s) v (q_update s) (q_delete s) (q_with s) (q_selects s) (q_star s) (q_groupbys s) (q_mysql_rollup s) (q_joins s) (q_values s) (q_updates s) (q_subcount s) (my_dups s) (my_ignore s) (pg_conflict s) (pg_fields s) (pg_nothing s) (pg_updates s) (pg_rstar s).
+Definition set_update s v := mkQ (q_cls s) (q_from s) (q_insert s) v (q_delete s) (q_with s) (q_selects s) (q_star s) (q_groupbys s) (q_mysql_rollup s) (q_joins s) (q_values s) (q_updates s) (q_subcount s) (my_dups s) (my_ignore s) (pg_conflict s) (pg_fields s) (pg_nothing s) (pg_updates s) (pg_rstar s).
+Definition set_delete s v := mkQ (q_cls s) (q_from s) (q_insert s) (q_update s) v (q_with s) (q_selects s) (q_star s) (q_groupbys s) (q_mysql_rollup s) (q_joins s) (q_values s) (q_updates s) (q_subcount s) (my_dups s) (my_ignore s) (pg_conflict s) (pg_fields s) (pg_nothing s) (pg_updates s) (pg_rstar s).
+Definition set_with s v := mkQ (q_cls s) (q_from s) (q_insert s) (q_update s) (q_delete s) v (q_selects s) (q_star s) (q_groupbys s) (q_mysql_rollup s) (q_joins s) (q_values s) (q_updates s) (q_subcount s) (my_dups s) (my_ignore s) (pg_conflict s) (pg_fields s) (pg_nothing s) (pg_updates s) (pg_rstar s).
+Definition set_selects s v st := mkQ (q_cls s) (q_from s) (q_insert s) (q_update s) (q_delete s) (q_with s) v st (q_groupbys s) (q_mysql_rollup s) (q_joins s) (q_values s) (q_updates s) (q_subcount s) (my_dups s) (my_ignore s) (pg_conflict s) (pg_fields s) (pg_nothing s) (pg_updates s) (pg_rstar s).
+Definition set_groupbys s v r := mkQ (q_cls s) (q_from s) (q_insert s) (q_update s) (q_delete s) (q_with s) (q_selects s) (q_star s) v r (q_joins s) (q_values s) (q_updates s) (q_subcount s) (my_dups s) (my_ignore s) (pg_conflict s) (pg_fields s) (pg_nothing s) (pg_updates s) (pg_rstar s).
+Definition set_joins s v := mkQ (q_cls s) (q_from s) (q_insert s) (q_update s) (q_delete s) (q_with s) (q_selects s) (q_star s) (q_groupbys s) (q_mysql_rollup s) v (q_values s) (q_updates s) (q_subcount s) (my_dups s) (my_ignore s) (pg_conflict s) (pg_fields s) (pg_nothing s) (pg_updates s) (pg_rstar s).
+Definition set_values s v := mkQ (q_cls s) (q_from s) (q_insert s) (q_update s) (q_delete s) (q_with s) (q_selects s) (q_star s) (q_groupbys s) (q_mysql_rollup s) (q_joins s) v (q_updates s) (q_subcount s) (my_dups s) (my_ignore s) (pg_conflict s) (pg_fields s) (pg_nothing s) (pg_updates s) (pg_rstar s).
+Definition set_updates s v := mkQ (q_cls s) (q_from s) (q_insert s) (q_update s) (q_delete s) (q_with s) (q_selects s) (q_star s) (q_groupbys s) (q_mysql_rollup s) (q_joins s) (q_values s) v (q_subcount s) (my_dups s) (my_ignore s) (pg_conflict s) (pg_fields s) (pg_nothing s) (pg_updates s) (pg_rstar s).
+Definition set_subcount s v := mkQ (q_cls s) (q_from s) (q_insert s) (q_update s) (q_delete s) (q_with s) (q_selects s) (q_star s) (q_groupbys s) (q_mysql_rollup s) (q_joins s) (q_values s) (q_updates s) v (my_dups s) (my_ignore s) (pg_conflict s) (pg_fields s) (pg_nothing s) (pg_updates s) (pg_rstar s).
+Definition set_my s d i := mkQ (q_cls s) (q_from s) (q_insert s) (q_update s) (q_delete s) (q_with s) (q_selects s) (q_star s) (q_groupbys s) (q_mysql_rollup s) (q_joins s) (q_values s) (q_updates s) (q_subcount s) d i (pg_conflict s) (pg_fields s) (pg_nothing s) (pg_updates s) (pg_rstar s).
+Definition set_pg s c f n u r := mkQ (q_cls s) (q_from s) (q_insert s) (q_update s) (q_delete s) (q_with s) (q_selects s) (q_star s) (q_groupbys s) (q_mysql_rollup s) (q_joins s) (q_values s) (q_updates s) (q_subcount s) (my_dups s) (my_ignore s) c f n u r.
 
 (* ---- call arguments, reduced to what the guards look at ---- *)
 Inductive selterm :=
@@ -196,7 +208,7 @@ Definition base_tables (s : qst) : list tref :=
   map Some (q_from s) ++ [option_map TTab (q_update s)] ++ map Some (q_with s).
 
 Definition table_name (t : tbl) : string :=
-  match t with TTab p => match pt_alias p with Some a => a | None => pt_name p end | TAlq n => n | TSub a => a end.
+  match t with TTab p => match pt_alias p with Some a => a | None => pt_name p end | TAlq n => n | TSub a _ _ => ostr a end.
 (* nodes_ order: BasicCriterion (and its subclass ComplexCriterion) yields its right operand before its left
    one, so the fields of ((l1 == r1) & (l2 == r2)) & ... come out last-to-first *)
 Definition crit_nodes (crit : list (jfield * jfield)) : list jfield := rev (flat_map (fun p => [fst p; snd p]) crit).
@@ -243,21 +255,39 @@ Definition do_join (s : qst) (item : tbl) (crit : option (list tref)) : qst :=
       end in
   set_joins s (q_joins s ++ [mkJ item' (option_map ptabs_of crit) (alqs_of (odefault [] crit))]).
 
-Definition join_step (s : qst) (item : tbl) (h : joinhow) : res qst :=
+(* a sub-query that has no alias yet is named "sq<_subquery_count>" by from_() / join() (written onto the object) *)
+Definition untagged (t : tbl) : bool := match t with TSub None _ _ => true | _ => false end.
+Definition tag_sub (n : nat) (t : tbl) : tbl :=
+  match t with TSub None src u => TSub (Some ("sq" ++ nat_to_string n)%string) src u | _ => t end.
+(* a field of the criterion that was built from the very object being joined sees the name it has just been given *)
+Definition same_object (item : tbl) (r : tref) : bool :=
+  match item, r with
+  | TSub None s u, Some (TSub None s' u') => String.eqb s s' && Nat.eqb u u'
+  | _, _ => false
+  end.
+Definition retag (item item' : tbl) (r : tref) : tref := if same_object item r then Some item' else r.
+Definition retag_crit (item item' : tbl) (crit : list (jfield * jfield)) : list (jfield * jfield) :=
+  map (fun p => ((retag item item' (fst (fst p)), snd (fst p)), (retag item item' (fst (snd p)), snd (snd p)))) crit.
+
+Definition join_step (s : qst) (item0 : tbl) (h : joinhow) : res qst :=
+  (* QueryBuilder.join: if item.alias is None: self._tag_subquery(item)  (on the copy the Joiner keeps) *)
+  let item := tag_sub (q_subcount s) item0 in
+  let s1 := if untagged item0 then set_subcount s (S (q_subcount s)) else s in
   match h with
   | JOn None => Err JoinExc                                  (* if criterion is None: raise *)
-  | JOn (Some crit) =>
-      if validate_on s item (crit_all_tables crit) then Ok (do_join s item (Some (crit_all_tables crit))) else Err JoinExc
+  | JOn (Some crit0) =>
+      let crit := retag_crit item0 item crit0 in
+      if validate_on s item (crit_all_tables crit) then Ok (do_join s1 item (Some (crit_all_tables crit))) else Err JoinExc
   | JOnField n =>
       if Nat.eqb n 0 then Err JoinExc                        (* if not fields: raise *)
       else match q_from s with
            | [] => Err IndexErr                              (* self.query._from[0] *)
            | f0 :: _ =>
                let crit := [Some f0; Some item] in
-               if validate_on s item crit then Ok (do_join s item (Some crit)) else Err JoinExc
+               if validate_on s item crit then Ok (do_join s1 item (Some crit)) else Err JoinExc
            end
-  | JUsing n => if Nat.eqb n 0 then Err JoinExc else Ok (do_join s item None)
-  | JCross => Ok (do_join s item None)
+  | JUsing n => if Nat.eqb n 0 then Err JoinExc else Ok (do_join s1 item None)
+  | JCross => Ok (do_join s1 item None)
   end.
 
 (* ---- PostgreSQL returning ---- *)
@@ -357,7 +387,10 @@ Definition step_q (s : qst) (c : qcall) : res qst :=
   if negb (applicable (q_cls s) c) then Err TypeErr      (* Selectable.__getattr__ gives a Field: not callable *)
   else
   match c with
-  | QFrom t => Ok (set_from s (q_from s ++ [t]))
+  | QFrom t =>
+      (* an un-aliased sub-query is named sq<max(count, its own count = 0)>; the count moves on *)
+      if untagged t then Ok (set_subcount (set_from s (q_from s ++ [tag_sub (q_subcount s) t])) (S (q_subcount s)))
+      else Ok (set_from s (q_from s ++ [t]))
   | QWith name => Ok (set_with s (q_with s ++ [TAlq name]))
   | QInto t =>
       if is_some (q_insert s) then Err AttrErr            (* if self._insert_table is not None *)
@@ -465,12 +498,9 @@ Definition fired {X} (gs : list (guard X)) (x : X) : list string :=
 Definition first_fired {X} (gs : list (guard X)) (x : X) : option string := hd_error (fired gs x).
 
 (* a table the join criterion may name: the joined item, a FROM / WITH / UPDATE source, an earlier join *)
-Definition join_source (s : qst) (item : tbl) (t : tbl) : bool :=
-  tbl_eqb t item
-  || existsb (tbl_eqb t) (q_from s)
-  || existsb (tbl_eqb t) (q_with s)
-  || match q_update s with Some u => tbl_eqb t (TTab u) | None => false end
-  || existsb (fun j => tbl_eqb t (j_item j)) (q_joins s).
+Definition sources (s : qst) (item : tbl) : list tbl :=
+  item :: q_from s ++ q_with s ++ match q_update s with Some u => [TTab u] | None => [] end ++ map j_item (q_joins s).
+Definition join_source (s : qst) (item : tbl) (t : tbl) : bool := existsb (tbl_ident t) (sources s item).
 (* table-less fields name no table at all *)
 Definition names_foreign_table (s : qst) (item : tbl) (crit : list (jfield * jfield)) : bool :=
   existsb (fun r => match r with
@@ -528,7 +558,8 @@ Definition guards_q : list (guard qx) := [
   ("join_on_none", (fun x => match x with (_, QJoin _ (JOn None)) => true | _ => false end), JoinExc);
   ("join_on_field_none", (fun x => match x with (_, QJoin _ (JOnField n)) => Nat.eqb n 0 | _ => false end), JoinExc);
   ("join_using_none", (fun x => match x with (_, QJoin _ (JUsing n)) => Nat.eqb n 0 | _ => false end), JoinExc);
-  ("join_foreign_table", (fun x => match x with (s, QJoin item (JOn (Some crit))) => names_foreign_table s item crit | _ => false end), JoinExc);
+  ("join_foreign_table", (fun x => match x with (s, QJoin item (JOn (Some crit))) =>
+        let item' := tag_sub (q_subcount s) item in names_foreign_table s item' (retag_crit item item' crit) | _ => false end), JoinExc);
   ("mysql_update_after_ignore", (fun x => match x with (s, QOnDupUpdate) => my_ignore s | _ => false end), QueryExc);
   ("mysql_ignore_after_update", (fun x => match x with (s, QOnDupIgnore) => Nat.ltb 0 (my_dups s) | _ => false end), QueryExc);
   ("pg_on_conflict_non_insert", (fun x => match x with (s, QOnConflict _) => is_none (q_insert s) | _ => false end), QueryExc);
@@ -548,6 +579,21 @@ Definition guards_q : list (guard qx) := [
   ("mssql_top_int", (fun x => match x with (_, QTop v _) => negb (is_integer_value v) | _ => false end), QueryExc);
   ("mssql_top_percent", (fun x => match x with (_, QTop v true) => is_integer_value v && negb (Z.leb 0 (top_value v) && Z.leb (top_value v) 100) | _ => false end), QueryExc)
 ].
+
+(* the one situation in which the code is known to deviate from the documentation (finding
+   C14-join-subquery-same-alias-same-from): the criterion names a sub-query that is none of the statement's sources
+   but carries the alias AND selects from the table of one that is -- the set arithmetic of JoinOn.validate cannot
+   tell them apart *)
+Definition frag_q (s : qst) (c : qcall) : bool :=
+  match c with
+  | QJoin item (JOn (Some crit)) =>
+      let item' := tag_sub (q_subcount s) item in
+      forallb (fun r => match r with
+                        | Some t => forallb (fun u => negb (tbl_eqb t u) || tbl_ident t u) (sources s item')
+                        | None => true
+                        end) (crit_all_tables (retag_crit item item' crit))
+  | _ => true
+  end.
 
 (* ========================================================================================== *)
 (* 2. CreateQueryBuilder (+ Vertica)                                                           *)
@@ -764,19 +810,50 @@ Inductive eff :=
 | EAssign (attr : string)                     (* self.attr = ... on the builder's copy *)
 | EInPlace (attr : string) (recopied : bool)  (* in-place mutation of a container; recopied by __copy__? *)
 | EWriteArg (what : string)                   (* write into an argument / foreign object *)
+| ESnap (attr : string) (copied : bool)       (* saved = (list(self.attr), ...) / (self.attr, ...): a snapshot is taken *)
+| ERestore (attr : string)                    (* self.attr = <that snapshot>  (in an except block, before re-raising) *)
 | ERaise (cls : string).
 (* one row per method with a raise: name, "the class honours immutable=False", and for every raise the
    effects of a path leading to it (ending with the ERaise) *)
 Definition effrow := (string * bool * list (list eff))%type.
 
 Definition harmless_on_copy (e : eff) : bool :=
-  match e with EAssign _ => true | EInPlace _ r => r | EWriteArg _ => false | ERaise _ => true end.
+  match e with EAssign _ => true | EInPlace _ r => r | EWriteArg _ => false | ERaise _ => true
+             | ESnap _ _ => true | ERestore _ => true end.
 Definition path_safe (p : list eff) : bool := forallb harmless_on_copy p.
 Definition raise_safe (t : list effrow) : bool := forallb (fun r => forallb path_safe (snd r)) t.
 
-(* with immutable=False the builder is mutated in place: then nothing at all may precede the raise *)
-Definition path_strict (p : list eff) : bool :=
-  match p with [ERaise _] => true | _ => false end.
+(* with immutable=False the builder is mutated in place: then nothing may be left written when the raise happens.
+   What is written is tracked most-recent-first; restoring an attribute from a snapshot undoes what was written to it
+   since the snapshot (rebindings always, in-place changes only when the snapshot is a copy). *)
+Inductive pend := PAssign (a : string) | PInPlace (a : string) | PArg (w : string) | PSnap (a : string) (copied : bool).
+Fixpoint snap_flag (a : string) (l : list pend) : option bool :=
+  match l with
+  | [] => None
+  | PSnap b c :: r => if String.eqb a b then Some c else snap_flag a r
+  | _ :: r => snap_flag a r
+  end.
+Fixpoint undo (a : string) (copied : bool) (l : list pend) : list pend :=
+  match l with
+  | [] => []
+  | PSnap b c :: r => if String.eqb a b then l else PSnap b c :: undo a copied r
+  | PAssign b :: r => if String.eqb a b then undo a copied r else PAssign b :: undo a copied r
+  | PInPlace b :: r => if String.eqb a b && copied then undo a copied r else PInPlace b :: undo a copied r
+  | x :: r => x :: undo a copied r
+  end.
+Definition is_written (x : pend) : bool := match x with PSnap _ _ => false | _ => true end.
+Fixpoint strict_from (acc : list pend) (p : list eff) : bool :=
+  match p with
+  | [] => true
+  | ERaise _ :: r => negb (existsb is_written acc) && strict_from acc r
+  | EAssign a :: r => strict_from (PAssign a :: acc) r
+  | EInPlace a _ :: r => strict_from (PInPlace a :: acc) r
+  | EWriteArg w :: r => strict_from (PArg w :: acc) r
+  | ESnap a c :: r => strict_from (PSnap a c :: acc) r
+  | ERestore a :: r =>
+      strict_from (match snap_flag a acc with Some c => undo a c acc | None => PAssign a :: acc end) r
+  end.
+Definition path_strict (p : list eff) : bool := strict_from [] p.
 Definition mutable_unsafe (t : list effrow) : list string :=
   map (fun r => fst (fst r)) (filter (fun r => snd (fst r) && negb (forallb path_strict (snd r))) t).
 
@@ -825,7 +902,8 @@ Definition expected_raises : list (string * list string) := [
   ("ClickHouseDropQueryBuilder.on_cluster", [AttrErr]); ("ClickHouseDropQueryBuilder.drop_dictionary", [AttrErr]);
   ("ClickHouseDropQueryBuilder.drop_quota", [AttrErr])
 ].
-(* the builder methods in which, with immutable=False, something is already written when the raise happens
-   (the C14-mutable findings): multi-term calls that applied earlier terms *)
-Definition expected_mutable_unsafe : list string :=
-  ["QueryBuilder.select"; "PostgreSQLQueryBuilder.returning"].
+(* the builder methods the (path-insensitive) effects walk still flags for immutable=False builders: select() only,
+   whose raise inside the loop is dead since the check stands in front of the loop (393df3f; props/C14.v
+   C14_select_atomic proves that on the model).  returning() restores _returns/_return_star before re-raising. *)
+Definition dead_raise_methods : list string := ["QueryBuilder.select"].
+Definition expected_mutable_unsafe : list string := ["QueryBuilder.select"].
